@@ -11,9 +11,9 @@
 package c13
 
 import (
-	"errors"
 	"encoding/hex"
 	"encoding/json"
+	"errors"
 	"fmt"
 	"hash/fnv"
 	"math/big"
@@ -116,7 +116,17 @@ func runImplOpt(p prog, countSteps bool) (res implRes) {
 			if rv[id] == 1 {
 				v.LoadScriptWithHash(code, hash.Hash160(code), callflag.All)
 			} else {
+				// With return count -1 the implementation gives the new
+				// context its own evaluation stack only if the caller's is
+				// not empty (otherwise both share one, and what an unwound
+				// callee left behind stays visible to the caller - a property
+				// of this loading API, reported separately). The host under
+				// test always means "own stack": keep a placeholder on the
+				// caller's stack while loading.
+				v.Estack().PushItem(stackitem.Null{})
 				v.LoadScriptWithFlags(code, callflag.All)
+				is := v.Istack()
+				is[len(is)-2].Estack().Pop()
 			}
 			v.Estack().PushItem(arg)
 			return nil
@@ -376,23 +386,23 @@ type prog struct {
 
 // caseRec is what is written to samples and replay files.
 type caseRec struct {
-	Section   string `json:"section"`
-	Key       string `json:"key"`
-	Script    string `json:"script_hex"`
+	Section   string   `json:"section"`
+	Key       string   `json:"key"`
+	Script    string   `json:"script_hex"`
 	Extra     []string `json:"host_scripts_hex,omitempty"`
 	RV        []int    `json:"host_return_counts,omitempty"`
 	PreGorgon bool     `json:"pre_gorgon,omitempty"`
-	Disasm    string `json:"disasm,omitempty"`
-	Oracle    string `json:"oracle,omitempty"`
-	Diff      string `json:"difference,omitempty"`
-	SpecState string `json:"spec_state"`
-	SpecStack string `json:"spec_stack,omitempty"`
-	SpecFault string `json:"spec_fault,omitempty"`
-	SpecUndet string `json:"spec_undetermined,omitempty"`
-	ImplState string `json:"impl_state"`
-	ImplStack string `json:"impl_stack,omitempty"`
-	ImplErr   string `json:"impl_error,omitempty"`
-	ImplGas   int64  `json:"impl_gas"`
+	Disasm    string   `json:"disasm,omitempty"`
+	Oracle    string   `json:"oracle,omitempty"`
+	Diff      string   `json:"difference,omitempty"`
+	SpecState string   `json:"spec_state"`
+	SpecStack string   `json:"spec_stack,omitempty"`
+	SpecFault string   `json:"spec_fault,omitempty"`
+	SpecUndet string   `json:"spec_undetermined,omitempty"`
+	ImplState string   `json:"impl_state"`
+	ImplStack string   `json:"impl_stack,omitempty"`
+	ImplErr   string   `json:"impl_error,omitempty"`
+	ImplGas   int64    `json:"impl_gas"`
 }
 
 const specStepLimit = 20_000
@@ -536,6 +546,11 @@ func (s *stats) check(p prog) bool {
 			// is not settled by any rule we can cite.
 			s.programs.Add(-1)
 			s.noteUndet("cyclic-garbage-at-MaxStackSize")
+			return true
+		}
+		if m.UnwoundLeft > 0 && m.State == sv.HALT && a.State == "FAULT" && strings.Contains(a.Err, "stack is too big") {
+			s.programs.Add(-1)
+			s.noteUndet("unwound-context-leftovers-at-MaxStackSize")
 			return true
 		}
 		viol("state", fmt.Sprintf("spec %s (%s), impl %s (%s)", m.State, m.FaultMsg, a.State, a.Err))
